@@ -881,8 +881,41 @@ func (m *Machine) minmax(x, y value, isMin bool) value {
 		}
 		return max(x, y)
 	}
-	unsupported("min/max builtin on symbolic operands")
-	return nil
+	// symbolic integers: an ite, no fork (the static type is not passed to
+	// builtins; Go's int kinds are told apart by the concrete operand if any,
+	// and symbolic operands here come from signed types)
+	a, b := m.toTerm(x), m.toTerm(y)
+	if a.S.K != SBV || a.S != b.S {
+		unsupported("min/max builtin on symbolic non-integer operands")
+	}
+	signed := true
+	for _, v := range []value{x, y} {
+		switch v.(type) {
+		case uint, uint8, uint16, uint32, uint64, uintptr:
+			signed = false
+		}
+	}
+	if m.minmaxUnsigned {
+		signed = false
+	}
+	lt := "bvslt"
+	if !signed {
+		lt = "bvult"
+	}
+	c := m.tt.BVCmp(lt, a, b)
+	var r *Term
+	if isMin {
+		r = m.tt.Ite(c, a, b)
+	} else {
+		r = m.tt.Ite(c, b, a)
+	}
+	if r.IsConst() {
+		if _, ok := x.(*Term); ok {
+			return m.termToValueLike(r, y)
+		}
+		return m.termToValueLike(r, x)
+	}
+	return r
 }
 
 // conv converts x of type tSrc to tDst (possibly symbolic).
